@@ -341,14 +341,31 @@ def check_match(sh, rng):
     rep = [k for k, v in counts.items() if v >= 2]
     if rep:
         k = rep[0]
-        state = {'n': 0}
-        alt = ex.ExprOp('^', b[k], exprgen.Int(1, irsem.width(b[k])))
+        # the second occurrence is bound to a near-twin of the first binding: the binding with one field of one node changed
+        # (operator, arity, one operand, slice bounds, constant, ...), or wrapped; every alternative must be refused
+        alts = [ex.ExprOp('^', b[k], exprgen.Int(1, irsem.width(b[k])))]
+        wb = irsem.width(b[k])
+        try:
+            for nm_, f_ in match_mutations(b[k], rng):
+                if exprgen.canon(f_) != exprgen.canon(b[k]) and irsem.width(f_) == wb:
+                    alts.append(f_)
+                if len(alts) >= 7:
+                    break
+        except Exception:
+            pass
+        if b[k].__class__.__name__ == 'ExprOp' and b[k].op in exprgen.AC:
+            alts.append(ex.ExprOp(b[k].op, *(list(b[k].args) + [ex.ExprId('extra%d' % wb, wb)])))      # same operator, one more operand
+        else:
+            o2 = ex.ExprOp('+', b[k], ex.ExprId('extra%d' % wb, wb))
+            alts.append(o2)
+          
+        state = {'n': 0, 'alt': alts[0]}
 
         def subst_incons(t):
             kk = t.__class__.__name__
             if exprgen.canon(t) == k:
                 state['n'] += 1
-                return b[k] if state['n'] == 1 else alt
+                return b[k] if state['n'] == 1 else state['alt']
             if kk in ('ExprInt', 'ExprId'):
                 return b.get(exprgen.canon(t), t)
             if kk == 'ExprMem':
@@ -365,8 +382,26 @@ def check_match(sh, rng):
             if kk == 'ExprOp':
                 return ex.ExprOp(t.op, *[subst_incons(a) for a in t.args])
             return t
-        f = subst_incons(p)
-        run_match(sh, f, p, wilds, 'mutant', 'repeated-wildcard-inconsistent')
+        for alt_ in alts:
+            state['n'], state['alt'] = 0, alt_
+            f = subst_incons(p)
+            run_match(sh, f, p, wilds, 'mutant', 'repeated-wildcard-inconsistent')
+        # and the reverse order: the near-twin first, the binding second
+        if b[k].__class__.__name__ == 'ExprOp':
+            for alt_ in alts[-2:]:
+                state['n'] = 0
+                first = {'v': alt_}
+
+                def subst_rev(t, _first=first):
+                    return None
+                state['alt'] = b[k]
+                saved = b[k]
+                b[k] = alt_
+                try:
+                    f = subst_incons(p)
+                finally:
+                    b[k] = saved
+                run_match(sh, f, p, wilds, 'mutant', 'repeated-wildcard-inconsistent')
 
 
 def fixed_match_cases(sh):
